@@ -208,6 +208,25 @@ static void run_single(int kind, long long n) {
 	lk_free(&l);
 }
 
+/* "from the moment a thread's lock call returns until that thread's unlock": a holder that terminates without unlocking has not unlocked.
+ * (Not run under ThreadSanitizer, which reports a thread that ends with a lock held as a finding of its own.) */
+static long long st_owner_exit;
+static void *lock_and_exit(void *a) { lk_lock((Lk *)a); return NULL; }
+static void run_owner_exit(int kind) {
+#if !defined(__SANITIZE_THREAD__)
+	Lk *l = malloc(sizeof *l); pthread_t t; int i, got = 0;
+	cur_kind = kind; scen = "holder-terminated-without-unlock";
+	if (!lk_new(l, kind)) VH_DIE("lock new");
+	pthread_create(&t, NULL, lock_and_exit, l); pthread_join(t, NULL);
+	for (i = 0; i < 50 && !got; i++) { got = lk_try(l); usleep(2000); }
+	if (got) viol("trylock-true-while-held", "trylock returned TRUE although the thread that holds the lock never unlocked it (it terminated)");
+	st_owner_exit++;
+	/* the lock stays locked for ever: neither unlocked from here nor destroyed */
+#else
+	(void)kind;
+#endif
+}
+
 int main(int argc, char **argv) {
 	double t0 = vh_now(); uint64_t seed = (uint64_t)vh_argi(argc, argv, "--seed", 1); long long N = vh_argi(argc, argv, "--n", 20000), hs = vh_argi(argc, argv, "--handshakes", 2000); int kind, ti;
 	const char *tl = vh_arg(argc, argv, "--threads", "2,4,8,16"); int only = (int)vh_argi(argc, argv, "--kind", -1); pthread_t wd;
@@ -218,6 +237,7 @@ int main(int argc, char **argv) {
 	for (kind = 0; kind < 2; kind++) {
 		char tmp[128], *tok, *sv; if (only >= 0 && kind != only) continue;
 		run_single(kind, 20000);
+		run_owner_exit(kind);
 		run_handshake(kind, hs);
 		{ int lh = (int)vh_argi(argc, argv, "--long-hold-ms", 0); if (lh) { run_long_hold(kind, 1, lh); if (lh >= 1000) run_long_hold(kind, 3, lh * 3); } }
 		snprintf(tmp, sizeof tmp, "%s", kind == 1 ? stl : tl); if (kind == 1) N = SN;
